@@ -280,6 +280,40 @@ func zzvC07Sequential(res *vrep.Result, base string, p vrep.Params) {
 						zzvC07Oracle(func(sig, format string, args ...any) { fail(fmt.Sprintf("%s/run%d", sig, min(run, 2)), format, args...) }, u, placed, start, before, mode)
 						if run == 2 {
 							start = start.Add(12 * zzvDay) // a later run: the boundary and active files have expired by then
+							// Meanwhile the programs kept counting into the files that were still active.
+							for pi := range placed {
+								pl := &placed[pi]
+								if !pl.readable || pl.end.Before(st.at) {
+									continue
+								}
+								if _, err := os.Stat(pl.path); err != nil {
+									continue
+								}
+								data, _ := os.ReadFile(pl.path)
+								cf, err := ref.DecodeCounterFile(data)
+								if err != nil {
+									continue
+								}
+								w := ref.NewCFWriter(cf.MetaRaw)
+								newCounts := map[string]uint64{}
+								for n, v := range pl.lf.Counts {
+									newCounts[n] = v + 1000
+								}
+								if len(newCounts) == 0 {
+									newCounts["late"] = 1
+								}
+								var names []string
+								for n := range newCounts {
+									names = append(names, n)
+								}
+								sort.Strings(names)
+								for _, n := range names {
+									w.Add(n, newCounts[n])
+								}
+								os.WriteFile(pl.path, w.Bytes(), 0o666)
+								pl.lf.Counts = newCounts
+								pl.bytes = w.Bytes()
+							}
 						}
 					}
 					res.Evaluations++
